@@ -66,6 +66,16 @@ theorem split_digits_all_paths (B : Nat) (v : Int) (pos : Nat) :
     splitDigits B v pos = (Int.tdiv v ((B ^ pos : Nat) : Int), Int.tmod v ((B ^ pos : Nat) : Int)) :=
   splitDigits_eq B v pos
 
+/-- `utils::shl_digits` / `shl_digits_in_place`: the base-2 (`<< k`), base-10 (`(v·5^k) << k`), power-of-two
+    (`<< k·log2 B`) and generic paths all multiply by `B^k` -/
+theorem shl_digits_all_paths (B : Nat) (v : Int) (k : Nat) : shlDigits B v k = v * ((B ^ k : Nat) : Int) :=
+  shlDigits_eq B v k
+
+/-- `utils::shr_digits` (via `shr_ref`, the sign-preserving shift of the magnitude): the base-2, base-10
+    (`shr_ref(v, k) / 5^k`), power-of-two and generic paths all divide by `B^k` toward zero -/
+theorem shr_digits_all_paths (B : Nat) (v : Int) (k : Nat) : shrDigits B v k = Int.tdiv v ((B ^ k : Nat) : Int) :=
+  shrDigits_eq B v k
+
 /-- `Repr::new` keeps the value and leaves a significand that is zero or not divisible by the base -/
 theorem repr_new_value_normalized (B : Nat) (hB : 2 ≤ B) (s e : Int) :
     (FRepr.new B s e).toRat B = (s : ℚ) * bpowQ B e ∧ Normalized B (FRepr.new B s e) :=
